@@ -23,7 +23,7 @@ use std::path::PathBuf;
 use mamba::check::result::TypeErr;
 use mamba::common::position::{CaretPos, Position};
 use mamba::common::result::{WithCause, WithSource};
-use mamba::generate::ast::node::Core;
+use mamba::generate::ast::node::{Core, CoreOp};
 use mamba::parse::verif_hooks as lx;
 use mamba::{mamba_to_python, PipelineArguments};
 
@@ -52,6 +52,13 @@ fn lex_line(l: &lx::Lex) -> String {
     .replace('\n', "\\n")
 }
 
+#[derive(Clone)]
+enum Sx {
+    One(Core),
+    Seq(Vec<Core>),
+    Nil,
+}
+
 // ---- tiny s-expression reader for Core values: (Add (Id a) (Int 1)) ----
 fn sx_tokens(s: &str) -> Vec<String> {
     s.replace('(', " ( ")
@@ -70,9 +77,27 @@ fn sx_core(t: &[String], i: &mut usize) -> Result<Core, String> {
     *i += 1;
     let mut kids: Vec<Core> = vec![];
     let mut atoms: Vec<String> = vec![];
+    // statement variants: positional arguments that are lists `(Seq ..)` or absent options `(Nil)`
+    let mut pos: Vec<Sx> = vec![];
     while t.get(*i).map(String::as_str) != Some(")") {
         if t.get(*i).map(String::as_str) == Some("(") {
-            kids.push(sx_core(t, i)?);
+            let h = t.get(*i + 1).map(String::as_str);
+            if h == Some("Seq") {
+                *i += 2;
+                let mut items = vec![];
+                while t.get(*i).map(String::as_str) != Some(")") {
+                    items.push(sx_core(t, i)?);
+                }
+                *i += 1;
+                pos.push(Sx::Seq(items));
+            } else if h == Some("Nil") {
+                *i += 3;
+                pos.push(Sx::Nil);
+            } else {
+                let c = sx_core(t, i)?;
+                pos.push(Sx::One(c.clone()));
+                kids.push(c);
+            }
         } else {
             atoms.push(t.get(*i).ok_or("eof")?.clone());
             *i += 1;
@@ -84,6 +109,25 @@ fn sx_core(t: &[String], i: &mut usize) -> Result<Core, String> {
     };
     let a = |n: usize| -> Result<String, String> {
         atoms.get(n).cloned().ok_or(format!("{head}: missing atom {n}"))
+    };
+    let one = |n: usize| -> Result<Box<Core>, String> {
+        match pos.get(n) {
+            Some(Sx::One(c)) => Ok(Box::from(c.clone())),
+            _ => Err(format!("{head}: argument {n} is not a node")),
+        }
+    };
+    let opt = |n: usize| -> Result<Option<Box<Core>>, String> {
+        match pos.get(n) {
+            Some(Sx::One(c)) => Ok(Some(Box::from(c.clone()))),
+            Some(Sx::Nil) => Ok(None),
+            _ => Err(format!("{head}: argument {n} is not an option")),
+        }
+    };
+    let seq = |n: usize| -> Result<Vec<Core>, String> {
+        match pos.get(n) {
+            Some(Sx::Seq(v)) => Ok(v.clone()),
+            _ => Err(format!("{head}: argument {n} is not a list")),
+        }
     };
     macro_rules! bin {
         ($v:ident) => {
@@ -145,6 +189,47 @@ fn sx_core(t: &[String], i: &mut usize) -> Result<Core, String> {
         "Set" => Core::Set { elements: kids.clone() },
         "KeyValue" => Core::KeyValue { key: b(&kids, 0)?, value: b(&kids, 1)? },
         "Comprehension" => Core::Comprehension { expr: b(&kids, 0)?, col: b(&kids, 1)?, conds: kids[2..].to_vec() },
+        // ---- statements (positional arguments; `(Seq ..)` lists, `(Nil)` absent options, leading atoms are strings)
+        "Pass" => Core::Pass,
+        "Break" => Core::Break,
+        "Continue" => Core::Continue,
+        "Empty" => Core::Empty,
+        "DocStr" => Core::DocStr { string: a(0)? },
+        "FStr" => Core::FStr { string: a(0)? },
+        "Type" => Core::Type { lit: a(0)?, generics: seq(0)? },
+        "Block" => Core::Block { statements: seq(0)? },
+        "If" => Core::If { cond: one(0)?, then: one(1)? },
+        "IfElse" => Core::IfElse { cond: one(0)?, then: one(1)?, el: one(2)? },
+        "While" => Core::While { cond: one(0)?, body: one(1)? },
+        "For" => Core::For { expr: one(0)?, col: one(1)?, body: one(2)? },
+        "Raise" => Core::Raise { error: one(0)? },
+        "With" => Core::With { resource: one(0)?, expr: one(1)? },
+        "WithAs" => Core::WithAs { resource: one(0)?, alias: one(1)?, expr: one(2)? },
+        "Match" => Core::Match { expr: one(0)?, cases: seq(1)? },
+        "Case" => Core::Case { expr: one(0)?, body: one(1)? },
+        "ExceptId" => Core::ExceptId { id: one(0)?, class: one(1)?, body: one(2)? },
+        "Except" => Core::Except { class: one(0)?, body: one(1)? },
+        "TryExcept" => Core::TryExcept { setup: opt(0)?, attempt: one(1)?, except: seq(2)? },
+        "VarDef" => Core::VarDef { var: one(0)?, ty: opt(1)?, expr: opt(2)? },
+        "FunArg" => Core::FunArg { vararg: a(0)? == "true", var: one(0)?, ty: opt(1)?, default: opt(2)? },
+        "FunDef" => Core::FunDef { id: a(0)?, dec: atoms[1..].to_vec(), arg: seq(0)?, ty: opt(1)?, body: one(2)? },
+        "ClassDef" => Core::ClassDef { name: one(0)?, parent_names: seq(1)?, body: one(2)? },
+        "Import" => Core::Import { from: opt(0)?, import: seq(1)?, alias: seq(2)? },
+        "Assign" => Core::Assign {
+            left: one(0)?,
+            right: one(1)?,
+            op: match a(0)?.as_str() {
+                "=" => CoreOp::Assign,
+                "+=" => CoreOp::AddAssign,
+                "-=" => CoreOp::SubAssign,
+                "*=" => CoreOp::MulAssign,
+                "/=" => CoreOp::DivAssign,
+                "**=" => CoreOp::PowAssign,
+                "<<=" => CoreOp::BLShiftAssign,
+                ">>=" => CoreOp::BRShiftAssign,
+                o => return Err(format!("unknown assignment operator {o}")),
+            },
+        },
         other => return Err(format!("unknown Core variant {other}")),
     })
 }
